@@ -404,7 +404,7 @@ func c12(c *ctx) {
 					}
 					pf, perr := wsflate.DecompressFrame(f) // no RSV1: returned as it is
 					emit(map[string]interface{}{"k": "helper", "key": key, "fin": fin, "op": op, "rsv": rsv, "masked": false,
-						"cerr": cerr != nil, "derr": derr != nil, "crsv": int(cf.Header.Rsv), "cop": int(cf.Header.OpCode), "cfin": cf.Header.Fin, "cmasked": cf.Header.Masked,
+						"cerr": cerr != nil, "derr": derr != nil, "perr": perr != nil, "crsv": int(cf.Header.Rsv), "cop": int(cf.Header.OpCode), "cfin": cf.Header.Fin, "cmasked": cf.Header.Masked,
 						"clenOK": cf.Header.Length == int64(len(cf.Payload)), "dlenOK": df.Header.Length == int64(len(df.Payload)),
 						"drsv": int(df.Header.Rsv), "dop": int(df.Header.OpCode), "dfin": df.Header.Fin, "roundtrip": bytes.Equal(df.Payload, msg),
 						"plainUntouched": !fin || (perr == nil && bytes.Equal(pf.Payload, msg) && pf.Header == f.Header)},
